@@ -37,7 +37,20 @@ func specMatcher(m *MSpec, vis []byte) int {
 	}
 	if m.Not {
 		// MatchNot: an error (incl. need-more) of the inner set propagates;
-		// otherwise the verdict is negated
+		// otherwise the verdict is negated. The inner set may hold a second matcher
+		// (AND, evaluated in order on the same bytes, only if the first said yes)
+		if v == sYes && m.And != nil {
+			switch m.And.m.Spec(vis) {
+			case 1:
+				v = sYes
+			case 0:
+				v = sNo
+			case 2:
+				return sMore
+			default:
+				return sErr
+			}
+		}
 		if v == sYes {
 			return sNo
 		}
@@ -94,6 +107,9 @@ func annotate(rl *RLSpec, id, parent string, cfg *c02cfg) {
 		for si := range r.Sets {
 			for mi := range r.Sets[si] {
 				cfg.matcherL[r.Sets[si][mi].ID] = id
+				if a := r.Sets[si][mi].And; a != nil {
+					cfg.matcherL[a.ID] = id
+				}
 			}
 		}
 		rid := id + "/" + strconv.Itoa(i)
